@@ -167,6 +167,7 @@ def tree_glue(s1: int, s2: int, s3: int, soll: bool, iv: int, f901: bool, flag2:
     pre: (FIXS1 < 0 or s1 == FIXS1) and (FIXS2 < 0 or s2 == FIXS2) and (FLAG2_FREE == 1 or MODE != "C14" or flag2 != soll) and 0 <= s1 < 3 and 0 <= s2 < 3 and 0 <= s3 < 3 and 0 <= iv < NINP and (F901 < 0 or f901 == (F901 == 1))
     post: _
     """
+    xs.path_start()
     s1, s2, s3, iv = xs.pick(s1, 0, 3), xs.pick(s2, 0, 3), xs.pick(s3, 0, 3), xs.pick(iv, 0, NINP)
     soll_c, f901_c = bool(xs.R(soll)), bool(xs.R(f901))
     if MODE != "C14" and flag2:
